@@ -398,10 +398,48 @@ func (r *Report) Record(c any, key string, nontrivial bool, diffs []Diff) {
 }
 
 func cmp(what, realv, modelv string) []Diff {
-	if realv == modelv {
+	if realv == modelv || tolerantEq(realv, modelv) {
 		return nil
 	}
 	return []Diff{{What: what, Real: realv, Model: modelv}}
+}
+
+// tolerantEq: the properties pin that an error is returned and, for a format / name error, that it
+// identifies the offending row / name – not the wording of the message. If the real error has a
+// wording this harness does not know ("other:<msg>") it is accepted when the model expects an error
+// of a class whose payload (if any) occurs in the message. Everything before " e=" must be equal.
+func tolerantEq(realv, modelv string) bool {
+	ri, mi := strings.LastIndex(realv, " e="), strings.LastIndex(modelv, " e=")
+	if ri < 0 || mi < 0 || realv[:ri] != modelv[:mi] {
+		if !(strings.HasPrefix(realv, "e=") && strings.HasPrefix(modelv, "e=")) {
+			return false
+		}
+		ri, mi = -1, -1
+	}
+	re, me := realv[ri+3:], modelv[mi+3:]
+	if ri < 0 {
+		re, me = realv[2:], modelv[2:]
+	}
+	if !strings.HasPrefix(re, "other:") {
+		return false
+	}
+	msg := strings.TrimPrefix(re, "other:")
+	switch {
+	case me == "emptytext", me == "nilstack":
+		return true
+	case strings.HasPrefix(me, "format:"), strings.HasPrefix(me, "invalidname:"), strings.HasPrefix(me, "invalidpath:"):
+		payload := string(unhx(me[strings.IndexByte(me, ':')+1:]))
+		return strings.Contains(msg, payload)
+	}
+	return false
+}
+
+// Full: enough violations have been collected; runners stop early (a broken tree can make every
+// massive-mode case wait for its deadline)
+func (r *Report) Full() bool {
+	r.mu.Lock()
+	defer r.mu.Unlock()
+	return len(r.Violations) >= 10
 }
 
 // parallel map over cases
